@@ -87,9 +87,23 @@ class C05(ConcBase):
                        "thorough": "all schedules of length 24 with <= 3 context switches, 2 threads, 90 (tree, program pair) combinations"}
 
     def cases(self, tier, seed):
-        return self.gen(tier, seed, NAV_PROGS, 5)
+        res = self.gen(tier, seed, NAV_PROGS, 5)
+        # identity semantics, sequentially: every position of every small tree (empty nodes and zero-length tokens
+        # included) is reached twice, by different routes; handles are equal exactly when they denote the same position
+        from . import gen_nav as GN
+        from .navref import build_tree
+        for ev in GN.small_trees(5 if tier == "quick" else 7):
+            t = build_tree(ev)
+            if t is None or len(t.order) < 3:
+                continue
+            prog = GN.identity_program(t)
+            res.append(("exhaustive", "N %s %s | %s" % ("pr"[len(ev) % 2], " ".join(ev), " ".join(prog))))
+        return res
 
     def project(self, line):
+        if " ;; " in line:
+            sec = line.split(" ;; ")
+            return sec[1].partition(" ~ ")[2] if len(sec) == 3 else line
         # C05 is about what the threads obtain: handles (position, kind, range, identity).  Identities are renumbered by first
         # appearance in the results, so that WHICH thread's candidate won a race -- which depends on how the schedule lines up
         # with the blocking points of the code -- does not matter, while two identities for one position still do.
@@ -107,9 +121,14 @@ class C05(ConcBase):
     def spec_raw(self, case, raw):
         if case.startswith("M "):
             return None if raw == "ok" else "Miri on program `%s`: %s" % (case.split(" ")[1], raw)
+        if case.startswith("N "):
+            from .navref import check_identity
+            return check_identity(case, raw)
         return CR.check_c05(case, raw)
 
     def nontrivial(self, case, impl):
+        if case.startswith("N "):
+            return "T5: " in case + " " or "S2 F" in case
         return ":+2" in self._raw_impl.get(case, "") or ":+1 " in self._raw_impl.get(case, "")
 
 
